@@ -17,9 +17,14 @@ pub mod c14;
 pub mod c15;
 
 pub mod c16;
+pub mod c17;
+pub mod entries;
+pub mod entries18;
+pub mod mutate;
+pub mod robust;
 
 pub fn all() -> Vec<Property> {
-    vec![c01::property(), c02::property(), c03::property(), c04::property(), c05::property(), c06::property(), c07::property(), c08::property(), c09::property(), c10::property(), c11::property(), c12::property(), c13::property(), c14::property(), c15::property(), c16::property()]
+    vec![c01::property(), c02::property(), c03::property(), c04::property(), c05::property(), c06::property(), c07::property(), c08::property(), c09::property(), c10::property(), c11::property(), c12::property(), c13::property(), c14::property(), c15::property(), c16::property(), c17::property()]
 }
 
 pub fn extra_command(_cmd: &str, _args: &[String]) -> Option<i32> {
